@@ -38,9 +38,18 @@ Definition words_ok (n : nat) (l : list Z) : bool := forallb (in_urange n) l.
 (* ------------------------------------------------------------ SysV table *)
 Record sysv_table := mkSysv { sv_buckets : list Z; sv_chains : list Z }.
 
-Definition encode_sysv_hash (le : bool) (T : sysv_table) : list Z :=
-  int_encode le 4 (zlen (sv_buckets T)) ++ int_encode le 4 (zlen (sv_chains T)) ++
-  encode_arr le 4 (sv_buckets T) ++ encode_arr le 4 (sv_chains T).
+(* Every entry (nbucket, nchain, buckets, chains) is a 32-bit word, except in the two 64-bit psABIs
+   that define the hash table entry as 64 bits wide: Alpha and s390x (binutils elf64-alpha.c,
+   elf64-s390.c: hash entry size 8).  The GNU hash section below has 32-bit words on EVERY machine. *)
+Definition EM_S390 : Z := 22.
+Definition EM_ALPHA : Z := 41.
+Definition sysv_entry_bytes (is64 : bool) (machine : Z) : nat :=
+  if is64 && ((machine =? EM_ALPHA) || (machine =? EM_S390)) then 8%nat else 4%nat.
+
+Definition encode_sysv_hash_w (w : nat) (le : bool) (T : sysv_table) : list Z :=
+  int_encode le w (zlen (sv_buckets T)) ++ int_encode le w (zlen (sv_chains T)) ++
+  encode_arr le w (sv_buckets T) ++ encode_arr le w (sv_chains T).
+Definition encode_sysv_hash (le : bool) (T : sysv_table) : list Z := encode_sysv_hash_w 4 le T.
 
 (* the indices met from i on, following chain[] up to STN_UNDEF; None when the walk leaves
    the table or does not end within [fuel] steps *)
